@@ -1,5 +1,7 @@
 """C10 — extraction never yields a value outside the parameter's declared type."""
+import copy
 import math
+import pickle
 
 from common import freephil, enc, call_j, attr_j, word_j, AutoT
 from values import pval_j, eval_table
@@ -114,12 +116,24 @@ def bounds(conv, x):
 
 
 _defs = {}
+ROUTES = ["parse", "parse", "deepcopy", "pickle", "pickle0", "fetch"]
 
 
-def master_def(t):
-    if t not in _defs:
-        _defs[t] = freephil.parse(input_string="v = 1\n  .type = %s\n" % t).objects[0]
-    return _defs[t]
+def master_def(t, route="parse"):
+    """the typed definition, as a user's program can come to hold it: freshly parsed, or a copy of the master made by
+    copy.deepcopy / pickle (interface.index.copy, multiprocessing), or the result of master.fetch()"""
+    if (t, route) not in _defs:
+        m = freephil.parse(input_string="v = 1\n  .type = %s\n" % t)
+        if route == "deepcopy":
+            m = copy.deepcopy(m)
+        elif route == "pickle":
+            m = pickle.loads(pickle.dumps(m))
+        elif route == "pickle0":
+            m = pickle.loads(pickle.dumps(m, 0))
+        elif route == "fetch":
+            m = m.fetch()
+        _defs[(t, route)] = m.objects[0]
+    return _defs[(t, route)]
 
 
 def run(ctx):
@@ -153,9 +167,14 @@ def run(ctx):
             continue
         if not words:
             continue
-        d = master_def(t).customized_copy(words=words)
+        route = rng.choice(ROUTES)
+        d = master_def(t, route).customized_copy(words=words)
         ctx.case((t, text), nontrivial=any(c.isalnum() for c in text))
         ctx.count(t.split("(")[0])
+        ctx.count("route_" + route)
+        if str(d.type) != str(master_def(t).type):
+            ctx.fail({"type": t, "route": route}, "the %s copy of the master declares %s, the master %s"
+                     % (route, d.type, master_def(t).type))
         ia = call_j(lambda: d.extract(), pval_j)
         ctx.count("outcome_" + (ia[0] if ia[0] == "ok" else ia[1] + ":" + str(ia[2])))
         # oracle: error naming the parameter, or a value in the domain
@@ -164,7 +183,7 @@ def run(ctx):
             f = in_domain(d.type, v)
             if f:
                 nan = "nan" in f
-                ctx.fail({"type": t, "text": text}, f, finding="D22" if nan else None, model_violates=None)
+                ctx.fail({"type": t, "text": text, "route": route}, f, finding="D22" if nan else None, model_violates=None)
         elif ia[1] == "runtime":
             try:
                 d.extract()
@@ -174,7 +193,7 @@ def run(ctx):
         else:
             ctx.fail({"type": t, "text": text}, "extraction raised %s" % (ia[1:],))
         # validate() reports the same thing as extraction
-        cases.append({"type": t, "text": text})
+        cases.append({"type": t, "text": text, "route": route})
         reqs.append(["from_words", enc(t), None, [word_j(w) for w in words], eval_table(words)])
         impls.append(ia)
         if i % 1500 == 0:
